@@ -1,6 +1,7 @@
 package main
 
 import (
+	"strings"
 	"fmt"
 	"go/token"
 	"go/types"
@@ -420,6 +421,112 @@ func checkC14(c *Ctx) {
 
 	// ---- O3 goroutine lifecycle -----------------------------------------------------------------
 	c.checkM3Goroutines("O3 goroutines", fWg, fMetCh, fDoneCh)
+
+	// ---- O3b the goroutine that drains the queue never sends on it ----------------------------------
+	// (it is the only consumer: with fewer free slots than it wants to add it blocks on its own queue,
+	// counted in flight, and every producer, Flush and Close block behind it for ever)
+	{
+		var consumers []*ssa.Function
+		for _, fn := range c.funcsOfPkg(pk) {
+			for _, op := range chanOpsOf(fn) {
+				if op.Field == fMetCh && (op.Kind == "recv" || op.Kind == "range" || op.Kind == "select-recv") {
+					consumers = append(consumers, fn)
+					break
+				}
+			}
+		}
+		sendsOnQueue := func(fn *ssa.Function) ssa.Instruction {
+			for _, op := range chanOpsOf(fn) {
+				if op.Field == fMetCh && (op.Kind == "send" || op.Kind == "select-send") {
+					return op.Instr
+				}
+			}
+			return nil
+		}
+		// callees: static ones, and for interface calls every method of this package with that name
+		// whose receiver implements the interface (the reporter's own cached handles)
+		pkgFuncs := c.funcsOfPkg(pk)
+		calleesOf := func(fn *ssa.Function) []*ssa.Function {
+			var out []*ssa.Function
+			instrsOf(fn, func(in ssa.Instruction) {
+				ci, ok := in.(ssa.CallInstruction)
+				if !ok {
+					return
+				}
+				if _, isGo := in.(*ssa.Go); isGo {
+					return // a new goroutine does not block this one
+				}
+				com := ci.Common()
+				if g := com.StaticCallee(); g != nil {
+					if c.inModule(g) && g.Blocks != nil {
+						out = append(out, g)
+					}
+					return
+				}
+				if com.IsInvoke() {
+					iface, _ := com.Value.Type().Underlying().(*types.Interface)
+					for _, g := range pkgFuncs {
+						if g.Name() != com.Method.Name() || g.Signature.Recv() == nil || iface == nil {
+							continue
+						}
+						rt := g.Signature.Recv().Type()
+						if types.Implements(rt, iface) || types.Implements(types.NewPointer(rt), iface) {
+							out = append(out, g)
+						}
+					}
+				}
+				if mc, isMC := com.Value.(*ssa.MakeClosure); isMC {
+					if g, isF := mc.Fn.(*ssa.Function); isF {
+						out = append(out, g)
+					}
+				}
+			})
+			return out
+		}
+		for _, fn := range consumers {
+			key := c.fnKey(fn)
+			c.sawFunc(key)
+			var bad ssa.Instruction
+			var via []string
+			seenF := map[*ssa.Function]bool{fn: true}
+			type item struct {
+				f     *ssa.Function
+				trail []string
+				d     int
+			}
+			queue := []item{{fn, nil, 0}}
+			for len(queue) > 0 && bad == nil {
+				it := queue[0]
+				queue = queue[1:]
+				if it.f != fn {
+					if s := sendsOnQueue(it.f); s != nil {
+						bad, via = s, it.trail
+						break
+					}
+				}
+				if it.d >= 6 {
+					continue
+				}
+				for _, g := range calleesOf(it.f) {
+					if !seenF[g] {
+						seenF[g] = true
+						queue = append(queue, item{g, append(append([]string{}, it.trail...), c.fnKey(g)), it.d + 1})
+					}
+				}
+			}
+			c.check(bad == nil, "O3 consumer-never-produces", key, fn.Pos(), "the batching goroutine (and what it calls, interface calls resolved to this package's handles) never sends on the queue it drains",
+				"the goroutine that drains the metric queue can itself send on that queue (call chain: "+strings.Join(via, " -> ")+"): when the queue has fewer free slots than it wants to add it blocks on its own queue while counted in flight, so every producer, Flush and Close hang", func() string {
+					if bad != nil {
+						return c.describe(bad)
+					}
+					return ""
+				}())
+		}
+		c.floor("O3 consumer-never-produces", len(consumers), 1)
+	}
+	// the reporter's wiring is fixed at construction: handles and late callers (Allocate*, Report* after
+	// Close) keep using it, so Close must not tear it down
+	c.checkSetOnlyAtConstruction("O4 fixed-after-construction", pk, "reporter", "resourcePool", "metCh", "donech", "commonTags", "stringInterner", "tagCache", "calc", "calcProto", "client", "buckets", "freeBytes", "overheadBytes")
 
 	// ---- O4 re-entrant handles ------------------------------------------------------------------
 	c.checkReentrantHandles("O4 reentrant-handles", []string{"m3", "prometheus", "multi"})
